@@ -148,6 +148,38 @@ Proof. exact (@MixDP.C_adj). Qed.
 Print Assumptions C06_C_adj.
 End M_C06_C_adj.
 
+(* THE PLANNER COST IS THE MINIMUM OF ITS RECURRENCE OVER ALL CANDIDATES (the analogue of C05_dp_is_min): not above the adjoint-dependency candidate ... *)
+Module M_C06_dp_le_adj.
+Import MixHelperCoh.
+Theorem C06_dp_le_adj :
+  forall m k : Z, 2 <= k -> k + 1 < m -> MixDP.C m k <= 1 + MixDP.C (m - 1) (k - 1).
+Proof. exact (@MixHelperCoh.C_le_adj). Qed.
+Print Assumptions C06_dp_le_adj.
+End M_C06_dp_le_adj.
+
+(* ... nor above ANY restart-checkpoint candidate 2 <= i <= m - 1 ... *)
+Module M_C06_dp_le_ics.
+Import MixHelperCoh.
+Theorem C06_dp_le_ics :
+  forall m k i : Z,
+         2 <= k -> k + 1 < m -> 2 <= i <= m - 1 -> MixDP.C m k <= i + MixDP.C i k + MixDP.C (m - i) (k - 1).
+Proof. exact (@MixHelperCoh.C_le_ics). Qed.
+Print Assumptions C06_dp_le_ics.
+End M_C06_dp_le_ics.
+
+(* ... and equal to one of them *)
+Module M_C06_dp_attained.
+Import MixHelperCoh.
+Theorem C06_dp_attained :
+  forall m k : Z,
+         2 <= k ->
+         k + 1 < m ->
+         MixDP.C m k = 1 + MixDP.C (m - 1) (k - 1) \/
+         (exists i : Z, 2 <= i <= m - 1 /\ MixDP.C m k = i + MixDP.C i k + MixDP.C (m - i) (k - 1)).
+Proof. exact (@MixHelperCoh.C_attained). Qed.
+Print Assumptions C06_dp_attained.
+End M_C06_dp_attained.
+
 (* PARTIAL: the planner value is the minimum over the candidates of its own recurrence (one-level unfolding); that no executable schedule whatsoever does better (Maddison 2024, Thm 1) is not proved *)
 Module M_C06_planC_unfold_partial.
 Import MixDP.
